@@ -235,35 +235,35 @@ def r4(ctx):
     rule.check(rs and all(x[0] == "call" and short(x[1]) == "rand::random" for x in rs), "random packet nonce = rand::random()", "random|nonce",
                "Packet::new_random uses nonce %s" % [fmt_short(x) for x in rs], loc=nr.loc(t.line))
     # body buffer filled by the RNG on every path
-    body_l = None
-    bt = None
-    for blk in nr.blocks:
-        tt = blk.term
-        if tt.k == "call" and callee_matches(tt, r"slice::<impl \[T\]>::to_vec$|slice::to_vec$") and tt.dest.is_local():
-            e = p.call(tt, blk.idx)
-            if any(y == p.operand(t.args[3]) or True for y in [0]):
-                # the array local behind the to_vec argument
-                cur = tt.args[0].place.local if tt.args[0].place is not None else None
-                for _ in range(5):
-                    nxt = None
-                    for b2 in nr.blocks:
-                        for s in b2.stmts:
-                            if s.k == "a" and s.lhs.is_local() and s.lhs.local == cur:
-                                if s.rv.place is not None:
-                                    nxt = s.rv.place.local
-                                elif s.rv.k in ("use", "cast") and s.rv.ops[0].place is not None:
-                                    nxt = s.rv.ops[0].place.local
-                    if nxt is None:
-                        break
-                    cur = nxt
-                body_l = cur
+    # the buffer behind the body argument: back through moves, borrows and copies (`ciphertext.to_vec()`, `&ciphertext[..]`)
+    body_l = t.args[3].place.local if t.args[3].place is not None else None
+    for _ in range(8):
+        if body_l is None:
+            break
+        nxt = None
+        for b2 in nr.blocks:
+            if b2.cleanup:
+                continue
+            for s_ in b2.stmts:
+                if s_.k == "a" and s_.lhs.is_local() and s_.lhs.local == body_l:
+                    if s_.rv.place is not None:
+                        nxt = s_.rv.place.local
+                    elif s_.rv.k in ("use", "cast") and s_.rv.ops[0].place is not None:
+                        nxt = s_.rv.ops[0].place.local
+            tt = b2.term
+            if tt.k == "call" and tt.dest is not None and tt.dest.is_local() and tt.dest.local == body_l and tt.args and tt.args[0].place is not None and \
+                    callee_matches(tt, r"slice::<impl \[T\]>::to_vec$|slice::to_vec$|::to_owned$|::clone$|::into_vec$|Deref(Mut)?>?::deref(_mut)?$|::index(_mut)?$|::as_(mut_)?slice$|Vec::<.*>::from$|::into$"):
+                nxt = tt.args[0].place.local
+        if nxt is None:
+            break
+        body_l = nxt
     fills = []
     if body_l is not None:
         al = aliases_of(nr, body_l)
         for fbi, ft in nr.calls():
             if callee_matches(ft, r"Rng::try_fill$|Rng::fill$|RngCore::(try_)?fill_bytes$") and len(ft.args) >= 2 and ft.args[1].place is not None and ft.args[1].place.local in al:
                 fills.append(fbi)
-    rule.check(bool(fills) and must_pass(nr, [bi], via_blocks=fills) and "to_vec" in fmt(p.operand(t.args[3])),
+    rule.check(bool(fills) and must_pass(nr, [bi], via_blocks=fills),
                "random packet body is a buffer filled by the RNG on every path", "random|body",
                "Packet::new_random builds its body without filling it from the RNG", loc=nr.loc(t.line))
     return rule
